@@ -777,6 +777,30 @@ func (g *gen) perturbState(tx *TxD) string {
 		cs.G.Fpg = []*big.Int{nil, bi(0), bi(1), dna(1)}[g.pick(4)]
 		return "feePerGas"
 	}
+	// nothing applicable drawn: a perturbation aimed at the type
+	switch tx.Type {
+	case types.SubmitAnswersHashTx, types.SubmitShortAnswersTx, types.SubmitLongAnswersTx, types.EvidenceTx:
+		switch g.pick(3) {
+		case 0:
+			g.I(k).Bits = 15
+			return "bitSet"
+		case 1:
+			cs.G.Period = uint32(g.pick(3))
+			return "earlyPeriod"
+		default:
+			g.I(k).Req = uint8(len(g.I(k).Flips) + 1)
+			return "flipsMissing"
+		}
+	case types.SubmitFlipTx:
+		in := g.I(k)
+		for len(in.Flips) < int(in.Req)+2 {
+			in.Flips = append(in.Flips, FlipD{Cid: hex.EncodeToString(g.validCid(k*16 + len(in.Flips))), Pair: uint8(len(in.Flips))})
+		}
+		return "flipsFull"
+	case types.OnlineStatusTx:
+		g.R(k).Validated = false
+		return "notValidated"
+	}
 	return ""
 }
 
@@ -804,6 +828,19 @@ func (g *gen) perturbTx(tx *TxD) string {
 			new(big.Int).Mul(bz(g.cs.G.Fpg), bi(6000000))}[g.pick(7)]
 		return "maxFee"
 	case 5:
+		if g.chance(0.5) {
+			// the current fee rate is above the network minimum and maxFee only covers the minimum: BigFee in a block
+			n := g.estN()
+			if n == 0 {
+				g.cs.Dummies = 2
+				n = 2
+			}
+			min := fee.GetFeePerGasForNetwork(n)
+			g.cs.G.Fpg = new(big.Int).Mul(min, bi(3))
+			gas := int64(fee.CalculateGas(buildTx(tx)))
+			tx.MaxFee = new(big.Int).Mul(min, bi(2*gas+40))
+			return "bigFee"
+		}
 		tx.Tips = []*big.Int{bi(1), dna(100000), bi(-1)}[g.pick(3)]
 		return "tips"
 	case 6:
@@ -816,6 +853,9 @@ func (g *gen) perturbTx(tx *TxD) string {
 			tx.Payload = hex.EncodeToString(attachments.CreateOnlineStatusAttachment(true))
 		case 3:
 			tx.Payload = hex.EncodeToString(make([]byte, 3*1024+1))
+			if g.chance(0.5) {
+				g.cs.U11 = false
+			}
 		default:
 			tx.Payload = hex.EncodeToString(attachments.CreateFlipSubmitAttachment([]byte{1, 2, 3}, uint8(g.pick(30))))
 		}
@@ -833,7 +873,8 @@ func (g *gen) perturbTx(tx *TxD) string {
 				fl := in.Flips[g.pick(len(in.Flips))]
 				if tx.Type == types.SubmitFlipTx {
 					if g.chance(0.5) {
-						tx.Payload = hex.EncodeToString(attachments.CreateFlipSubmitAttachment(unhex(fl.Cid), 200))
+						free := uint8(3*int(in.Req) - 1) // a pair index inside the allowed range, unused by the existing flips
+						tx.Payload = hex.EncodeToString(attachments.CreateFlipSubmitAttachment(unhex(fl.Cid), free))
 					} else {
 						tx.Payload = hex.EncodeToString(attachments.CreateFlipSubmitAttachment(g.validCid(4000), fl.Pair))
 					}
@@ -913,7 +954,7 @@ func GenCase(r *rand.Rand, t uint16) *Case {
 	g.base()
 	tx := g.scenario(t)
 	note := TypeName(t)
-	nState := []int{0, 0, 0, 1, 1, 2}[g.pick(6)]
+	nState := []int{0, 0, 1, 1, 2}[g.pick(5)]
 	for i := 0; i < nState; i++ {
 		note += "+" + g.perturbState(tx)
 	}
@@ -921,9 +962,22 @@ func GenCase(r *rand.Rand, t uint16) *Case {
 	if tx.Key >= 1 {
 		tx.Nonce, tx.Epoch = g.curNonce(tx.Key)+1, g.cs.G.Epoch
 	}
-	nTx := []int{0, 0, 0, 1, 1, 2}[g.pick(6)]
+	nTx := []int{0, 0, 1, 1, 2}[g.pick(5)]
 	for i := 0; i < nTx; i++ {
 		note += "+" + g.perturbTx(tx)
+	}
+	if tx.VM != nil && (tx.Type == types.CallContractTx || tx.Type == types.TerminateContractTx) {
+		// the fake VM stays realistic after perturbations: only the called contract pays out
+		if tx.To == nil {
+			tx.VM.Deltas = nil
+		} else {
+			tx.VM.CAddr = *tx.To
+			for i := range tx.VM.Deltas {
+				if tx.VM.Deltas[i].D.Sign() < 0 {
+					tx.VM.Deltas[i].ID = *tx.To
+				}
+			}
+		}
 	}
 	if g.chance(0.04) {
 		g.cs.HeadDummies = []int{0, 1, 3}[g.pick(3)] // F9: the head's network size differs from the checked state's
